@@ -135,19 +135,20 @@ func (c *cpair) move(total time.Duration) moveRes {
 				if fatal(c.p.name+".Send", e) {
 					return res
 				}
-				if e.err != nil {
+				// the peer always receives (and thereby drains whatever is queued), also
+				// when the send failed because a queue is still full of older messages
+				m, e2 := recvUntil(c.peer, t)
+				if fatal(c.p.peer+"(peer).Recv", e2) {
+					return res
+				}
+				switch {
+				case m != nil:
+					m.Free()
+					okOut = true
+				case e.err != nil:
 					note(c.p.name+".Send", e)
-				} else {
-					m, e := recvUntil(c.peer, t)
-					if fatal(c.p.peer+"(peer).Recv", e) {
-						return res
-					}
-					if m != nil {
-						m.Free()
-						okOut = true
-					} else {
-						note("object sent, peer Recv", e)
-					}
+				default:
+					note("object sent, peer Recv", e2)
 				}
 			}
 			if c.p.style != stSendOnly && !okIn {
@@ -156,19 +157,18 @@ func (c *cpair) move(total time.Duration) moveRes {
 				if fatal(c.p.peer+"(peer).Send", e) {
 					return res
 				}
-				if e.err != nil {
+				m, e2 := recvUntil(c.obj, t)
+				if fatal(c.p.name+".Recv", e2) {
+					return res
+				}
+				switch {
+				case m != nil:
+					m.Free()
+					okIn = true
+				case e.err != nil:
 					note("peer Send", e)
-				} else {
-					m, e := recvUntil(c.obj, t)
-					if fatal(c.p.name+".Recv", e) {
-						return res
-					}
-					if m != nil {
-						m.Free()
-						okIn = true
-					} else {
-						note("peer sent, "+c.p.name+".Recv", e)
-					}
+				default:
+					note("peer sent, "+c.p.name+".Recv", e2)
 				}
 			}
 			if (okOut || c.p.style == stRecvOnly) && (okIn || c.p.style == stSendOnly) {
@@ -181,16 +181,16 @@ func (c *cpair) move(total time.Duration) moveRes {
 			if fatal(c.p.name+".Send", e) {
 				return res
 			}
-			if e.err != nil {
-				note(c.p.name+".Send", e)
-				break
-			}
-			m, e := recvUntil(c.peer, t)
-			if fatal(c.p.peer+"(peer).Recv", e) {
+			m, e2 := recvUntil(c.peer, t) // always: drains the peer side
+			if fatal(c.p.peer+"(peer).Recv", e2) {
 				return res
 			}
 			if m == nil {
-				note("object sent, peer Recv", e)
+				if e.err != nil {
+					note(c.p.name+".Send", e)
+				} else {
+					note("object sent, peer Recv", e2)
+				}
 				break
 			}
 			m.Free()
@@ -219,16 +219,16 @@ func (c *cpair) move(total time.Duration) moveRes {
 			if fatal(c.p.peer+"(peer).Send", e) {
 				return res
 			}
-			if e.err != nil {
-				note("peer Send", e)
-				break
-			}
-			m, e := recvUntil(c.obj, t)
-			if fatal(c.p.name+".Recv", e) {
+			m, e2 := recvUntil(c.obj, t) // always: drains the object side
+			if fatal(c.p.name+".Recv", e2) {
 				return res
 			}
 			if m == nil {
-				note("peer sent, "+c.p.name+".Recv", e)
+				if e.err != nil {
+					note("peer Send", e)
+				} else {
+					note("peer sent, "+c.p.name+".Recv", e2)
+				}
 				break
 			}
 			e = c.objReply(m, t+"r")
